@@ -5,6 +5,10 @@ ROOT = os.path.dirname(os.path.dirname(os.path.abspath(__file__)))
 props = [json.loads(l) for l in open(os.path.join(ROOT, "properties.jsonl"))]
 
 CHECKS = {
+ "C10": dict(engine="validate", design="5 C10, 3.6, Appendix D",
+   technique="TLC model checking of Validate.tla (operational check order sound w.r.t. declarative Truthful/HasViolation on all files within 2-3 edits of base files) + TLC-judged outcome of the real generate on every explored file and on seeded random larger files (ValidateJudge)",
+   text="Validate.tla defines, per KikiErr validation variant, when a report is truthful for an abstract file (identifier occurrences are sites standing for byte positions; nonterminal and terminal references resolve in separate namespaces) and when a file has any violation. MC_Validate explores every file within 2 edits (rename an occurrence, toggle $, duplicate/delete item/variant/field, add start; ~23 000 files, depth 3 in the thorough tier) and shows the implementation-ordered checks are sound. Every explored file and 3 000-60 000 random larger ones are rendered to text, run through the real generate, positions mapped back to sites, and judged by TLC: Ok/TableConflict => no violation; error => truthful (any violation present may be reported).",
+   note="Trusted: TLC; the rendering with its occurrence<->byte map; name pools with fixed capitalisation classes (the same pools in spec and driver, cross-checked every run)."),
  "C09": dict(engine="frontend", design="5 C09, 3.5",
    technique="TLC model checking of Driver.tla over the LALR(1) tables of the grammar of record (MC_Frontend, all parser configurations within MAXLEN tokens) + TLC TablesMatch judgement of the tables extracted from the checked-in parser.rs + replay of every configuration's witness, rendered to source text, on the real generate + TLC-judged longer random files (DriverJudge)",
    text="The published Kiki grammar is a TLA+ value (KikiSyntax.tla). TLC computes its canonical LR(1) collection (87 states) and LALR(1) automaton (67), judges the ACTION/GOTO tables extracted from kiki/src/parser.rs to be exactly those tables up to renumbering, and explores every parser configuration reachable within 22 (quick) / 30 (thorough) tokens x every next token kind. Each configuration's shortest witness is rendered to text with seeded lexemes and layout (multi-byte comments, CRLF, Unicode spaces) and run through the real generate: accept => no Lex/Parse error; error at token i => Parse(start_i, text_i, end_i) exactly; early end => Parse(len, \"\", len).",
